@@ -26,7 +26,7 @@ MECHANISMS = [('cgsmiles.read_fragments', 'strip_bonding_descriptors'), ('cgsmil
               ('cgsmiles.pysmiles_utils', 'rebuild_h_atoms'), ('cgsmiles.pysmiles_utils', 'read_fragment_smiles'),
               ('cgsmiles.graph_utils', 'merge_graphs')]
 FINDING_FEATURES = {'fragments.ring_bond_symbol_leaks_into_descriptor': 'ringsym_digit_desc'}
-SIZES = {'quick': dict(n=4800, max_heavy=[3, 6, 10, 16, 22]), 'thorough': dict(n=120000, max_heavy=[3, 6, 10, 16, 16, 22, 30])}
+SIZES = {'quick': dict(n=8000, max_heavy=[3, 6, 10, 16, 22]), 'thorough': dict(n=120000, max_heavy=[3, 6, 10, 16, 16, 22, 30])}
 
 
 def cases(seed, tier, shard, nshards):
